@@ -304,6 +304,18 @@ func init() {
 		f.check(Not(Eq(args[0].e, IntLit(0))), "nil-error")
 		return []sval{{e: t.havocTemp("errstr", t.th.Addr(), nil), typ: types.Typ[types.String]}}
 	}
+	// reflect.TypeOf(x).String(): only used to print an option's name; pure, some non-nil type, some string
+	trustedCalls["reflect.TypeOf"] = func(f *frame, c *ssa.CallCommon, args []sval) []sval {
+		t := f.t
+		e := t.havocTemp("rtype", t.th.Addr(), nil)
+		t.cur.Assume(Not(Eq(e, t.th.AddrLit(0))))
+		return []sval{{e: e, typ: c.Value.Type().(*types.Signature).Results().At(0).Type()}}
+	}
+	invokeContracts["reflect.Type.String"] = func(f *frame, c *ssa.CallCommon, args []sval) []sval {
+		t := f.t
+		f.check(Not(Eq(args[0].e, t.th.AddrLit(0))), "nil-type")
+		return []sval{{e: t.havocTemp("str", t.th.Addr(), nil), typ: types.Typ[types.String]}}
+	}
 	trustedCalls["errors.Is"] = func(f *frame, c *ssa.CallCommon, args []sval) []sval {
 		return []sval{{e: mk("errIs", SBool, args[0].e, args[1].e), typ: types.Typ[types.Bool]}}
 	}
